@@ -20,7 +20,9 @@ Vary(S) == UNION {UNION {{[l EXCEPT ![f] = v] : v \in Features[f]} : f \in Names
 \* line ends interact with everything that ends at a line end: these pairs are always included
 LineEndPairs == {[[House EXCEPT !.nl = n] EXCEPT ![f] = "yes"] : n \in {"CRLF", "CR"}, f \in {"hashOwn", "hashTrail", "hashBlock", "note"}}
                 \cup {[[House EXCEPT !.nl = n] EXCEPT !.ann = a] : n \in {"CRLF", "CR"}, a \in {"block", "spread"}}
-Layouts == IF Strength = 1 THEN Vary({House}) \cup LineEndPairs ELSE Vary(Vary({House}))
+\* the form of the annotation interacts with what is inside it (a note, a trailing comma, quoted names, the rule order)
+AnnPairs == {[[House EXCEPT !.ann = a] EXCEPT ![f] = "yes"] : a \in {"block", "spread"}, f \in {"note", "trailComma", "quoted", "reversed", "hashTrail"}}
+Layouts == IF Strength = 1 THEN Vary({House}) \cup LineEndPairs \cup AnnPairs ELSE Vary(Vary({House}))
 
 \* document re-spellings that keep the JSON value
 DocSpellings == { [ws |-> w, order |-> o, esc |-> e] : w \in {"compact", "spaced", "lines"}, o \in {"same", "reversed"}, e \in {"plain", "unicode", "slash"} }
